@@ -88,33 +88,35 @@ def lookupV {β} (v : Vendor) : List (Vendor × β) → Option β
 /-- `"unknown" + str(i + 3)` -/
 def unknownName (i : Nat) : Str := S "unknown" ++ S (toString (i + 3))
 
+/-- the part of `_get_vendor_columns` after vendor detection (no orix `Column names:` line): the variant of
+the vendor's table with the file's number of columns, or — with a warning — the generic names -/
+def columnsFor (t : ReaderTables) (vendor : Vendor) (nColsFile : Nat) : Option (Vendor × List Str × Bool) :=
+  match lookupV vendor t.columns with
+  | none => none
+  | some variants =>
+    if (variants.map List.length).contains nColsFile then
+      match variants.find? (fun c => c.length == nColsFile) with
+      | some c => some (vendor, c, false)
+      | none => none
+    else
+      match (lookupV Vendor.unknown t.columns).bind List.head? with
+      | none => none
+      | some base =>
+        let extra := (List.range (nColsFile - base.length)).map unknownName
+        some (Vendor.unknown, base ++ extra, true)
+
 /-- `_get_vendor_columns`: vendor, column names, whether the "unexpected number of columns" warning is
 issued.  `none`: a table the code indexes is missing. -/
 def vendorColumns (t : ReaderTables) (h : List HLine) (nColsFile : Nat) :
     Option (Vendor × List Str × Bool) :=
-  let (vendor, fpLine) := detectVendor t h
-  match lookupV vendor t.columns with
-  | none => none
-  | some variants =>
-    let expected := variants.map List.length
-    match vendor, fpLine with
-    | .orix, some names =>
-      match variants.head? with
-      | none => none
-      | some base =>
-        let extra := (names.drop base.length).map fun s => (Str.lstripSp s).spaceToUnderscore
-        some (vendor, base ++ extra, false)
-    | _, _ =>
-      if expected.contains nColsFile then
-        match variants.find? (fun c => c.length == nColsFile) with
-        | some c => some (vendor, c, false)
-        | none => none
-      else
-        match (lookupV Vendor.unknown t.columns).bind List.head? with
-        | none => none
-        | some base =>
-          let extra := (List.range (nColsFile - base.length)).map unknownName
-          some (Vendor.unknown, base ++ extra, true)
+  match detectVendor t h with
+  | (.orix, some names) =>
+    match (lookupV Vendor.orix t.columns).bind List.head? with
+    | none => none
+    | some base =>
+      let extra := (names.drop base.length).map fun s => (Str.lstripSp s).spaceToUnderscore
+      some (.orix, base ++ extra, false)
+  | (vendor, _) => columnsFor t vendor nColsFile
 
 /-- what `_get_phases_from_header` collects, one list per key -/
 def hdrIds (h : List HLine) : List Nat := h.filterMap fun | .phase i => some i | _ => none
